@@ -12,7 +12,7 @@ _ST = re.compile(
     r"fid=(?P<fid>\d+) sr=(?P<sr>\d) stb=(?P<stb>\d+) pq=(?P<pq>\d+) rq=(?P<rq>\d+) \| snd q=(?P<sq>\d+) base=(?P<sbase>\d+) "
     r"next=(?P<snext>\d+) alloc=(?P<salloc>\d+) total=(?P<stotal>\d+) \| fq wbase=(?P<fwbase>\d+) next=(?P<fnext>\d+) "
     r"lbase=(?P<flbase>\d+) llen=(?P<fllen>\d+) rl=(?P<frl>\d) lf=(?P<lf>\S+) ad=(?P<ad>\S+) rb=(?P<rb>\S+) li=(?P<li>\S+) \| "
-    r"rcv base=(?P<rbase>\d+) end=(?P<rend>\d+) alloc=(?P<ralloc>\d+) crf=(?P<crf>[0-9a-f]+) wrf=(?P<wrf>\d) held=(?P<held>\d+) \| "
+    r"rcv base=(?P<rbase>\d+) end=(?P<rend>\d+) alloc=(?P<ralloc>\d+) crf=(?P<crf>[0-9a-f]+) wrf=(?P<wrf>\d) held=(?P<held>\d+) cb=(?P<cb>\S+) cn=(?P<cn>\S+) mk=(?P<mk>\S+) ef=(?P<ef>\d+) df=(?P<df>\d+) \| "
     r"faq base=(?P<qbase>\d+) len=(?P<qlen>\d+) \| src X=(?P<X>\d+) max=(?P<max>\d+) mode=(?P<mode>\S+) plr=(?P<plr>\S+) "
     r"nfe=(?P<nfe>\S+) idle=(?P<idle>\d) rtts=(?P<rtts>\S+) rttms=(?P<rttms>\S+) rtoms=(?P<rtoms>\S+) rs=(?P<rs>\S+)")
 
@@ -210,6 +210,27 @@ def bounds_oracle(ops, out):
             return "endpoint %d has %d packets outstanding, window %d" % (e, (st["snext"] - st["sbase"]) % M20, c["txpw"])
         if st["qlen"] > c["rxfw"]:
             return "endpoint %d queues %d ack groups (frame window %d)" % (e, st["qlen"], c["rxfw"])
+    return None
+
+
+def alloc_agreement_oracle(ops, out):
+    """C06 (between two uflow endpoints no packet is discarded for lack of receive memory): with two honest
+    endpoints the receiver's allocation counter only covers packets that are still in the sender's window (the
+    receiver's base is never behind the base the sender has been told), and both sides charge a packet the
+    same fragment-rounded size, so receiver alloc <= sender alloc at every moment.  A receiver that keeps
+    charging for packets the window has left behind breaks this before it starts refusing packets."""
+    last = {}
+    for (t, info, term) in events(ops, out):
+        if not term or not term.startswith("st "):
+            continue
+        st = parse_st(term)
+        if not st:
+            continue
+        last[endpoint_of(t)] = st
+        for (snd, rcv) in ((0, 1), (1, 0)):
+            if snd in last and rcv in last and last[rcv]["ralloc"] > last[snd]["salloc"]:
+                return "endpoint %d charges %d bytes of receive allocation while endpoint %d has only %d bytes outstanding (op %s)" % (
+                    rcv, last[rcv]["ralloc"], snd, last[snd]["salloc"], " ".join(t[:3]))
     return None
 
 
@@ -737,15 +758,17 @@ def flush_order_oracle(ops, out):
             for l in info:
                 p = l.split()
                 if p[0] == "ev" and p[1] == "receive":
-                    srv_got.setdefault(p[2], set()).add((int(p[3]), int(p[4])))
+                    srv_got.setdefault(p[2], []).append((int(p[3]), int(p[4])))
                 if p[0] == "ev" and p[1] == "disconnect":
                     addr = p[2]
                     for j, tg in target.items():
                         a = str(100 + int(j)) if tg == "srv" else tg
                         if a == addr and closed.get(j) and addr not in srv_initiated:
-                            for pk in sent.get(j, []):
-                                if pk not in srv_got.get(addr, set()):
-                                    return "server reported Disconnect for client %s before delivering its Reliable packet (len %d)" % (j, pk[0])
+                            got = srv_got.get(addr, [])
+                            for pk in set(sent.get(j, [])):
+                                # packets with equal contents (empty ones in particular) are counted
+                                if got.count(pk) < sent[j].count(pk):
+                                    return "server reported Disconnect for client %s before delivering its Reliable packet (len %d; %d of %d such packets delivered)" % (j, pk[0], got.count(pk), sent[j].count(pk))
     return None
 
 
